@@ -5,7 +5,14 @@
 //! implementation's line for `e2e ...` cases (lean/Driver/Common.lean), so they can never cause a
 //! model/implementation disagreement; only `ctx.fail(..)` matters.
 //!
-//! Case lines: `e2e <family> <params...>`; one family per property (see `family_of`).
+//! Case lines: `e2e <family> <k=v params...>`; the families of a property are generated for that property only
+//! (`family_of`); each family's file documents its parameters and its ORACLE:
+//!   C06 retry     (retry.rs)      C07 page      (page.rs)     C10 break   (brk.rs)
+//!   C12 route     (route.rs) + tablet (tablet.rs)              C14 evict   (evict.rs)
+//!   C18 timestamp (timestamp.rs)  C20 keyspace  (keyspace.rs)
+//! Output line: a short summary (never compared with a model). A case that cannot reach its precondition (session
+//! build / pool fill on an overloaded machine) prints `e2e-skip <why>` and judges nothing - never an oracle failure.
+//! Fixed cases: corpus/Cxx/e2e.case. `e2e smoke ...` and `e2e gen ...` are developer aids (never generated).
 use crate::rng::Rng;
 use crate::{Ctx, Tier};
 
